@@ -26,7 +26,14 @@ var commonIntrinsics = []string{
 	"io.EOF and friends are distinct error objects; package initialisers of dependencies are not run",
 }
 
-var indirectHarness = map[string]string{}
+// Indirect names the native demonstration of violations that cannot be
+// replayed by feeding the model to the same harness.
+type Indirect struct {
+	Alt  string
+	Kind string // assert | race | multiproc
+}
+
+var indirectHarness = map[string]Indirect{}
 
 var propMeta = map[string]*PropMeta{}
 
@@ -114,7 +121,10 @@ func init() {
 		"String() and Dump() are executed symbolically on zero values and fresh packets of all types, on packets under construction (setter sequences), on the receivers of UnmarshalBinary on arbitrary bytes whether or not decoding succeeded, and on packets ReadPacket returns; reaching a panic or exhausting the step budget inside a renderer is the violation. The byte renderings (reason codes, first byte, CONNECT flags, CONNACK flags, subscription options) are driven with one symbolic byte each, every table index bounds-checked by the solver.",
 		"UnmarshalBinary bodies up to N_max-4 per type, ReadPacket streams up to 4 bytes, setter pairs, 5 byte renderings", "bodies up to N_max-3, streams up to 5 bytes", outA,
 		"fmt itself does not panic or block")
-	indirectHarness["ZZ_C11_det"] = "ZZ_C11_native"
+	indirectHarness["ZZ_C11_det"] = Indirect{"ZZ_C11_native", "assert"}
+	indirectHarness["ZZ_C11_proc"] = Indirect{"ZZ_C11_proc", "multiproc"}
+	indirectHarness["ZZ_C13_ro"] = Indirect{"ZZ_C13_race", "race"}
+	indirectHarness["ZZ_C13_will"] = Indirect{"ZZ_C13_will_race", "race"}
 }
 
 func jobsFor(prop, tier string) []*Job {
@@ -228,6 +238,13 @@ func jobsFor(prop, tier string) []*Job {
 				add("one/S/"+tn(t), "ZZ_C06_smode", []string{"one"}, sh.Args()...)
 			}
 		}
+		// large frames followed by other frames
+		for _, big := range []int{200, 5000, 20000} {
+			sh := Sh{Typ: 3, Slen: 1, Nz: 2, Big: big}
+			add("one/S/"+tn(3), "ZZ_C06_smode", []string{"one"}, sh.Args()...)
+			shc := Sh{Typ: 1, Slen: 1, Nz: 2, Will: 1, Big: big}
+			add("one/S/"+tn(1), "ZZ_C06_smode", []string{"one"}, shc.Args()...)
+		}
 		seqs := [][]int{{12}, {13, 12}, {4, 3}, {2, 14}, {3, 8, 12}, {14, 15, 4}, {1, 2}, {10, 11, 9}}
 		if thorough {
 			seqs = append(seqs, []int{5, 6, 7}, []int{3, 3, 3}, []int{12, 12, 12}, []int{15, 1, 3})
@@ -315,6 +332,19 @@ func jobsFor(prop, tier string) []*Job {
 				}
 			}
 		}
+		// write, modify, write again
+		for t := 1; t <= 15; t++ {
+			for k := 0; k < setterCount[t]; k++ {
+				sh := Sh{Typ: t, Slen: 1, NList: b2i(hasList(t)), Mask: apiMask(t), NUser: 1, Nz: 1}
+				if t == 1 {
+					sh.Will, sh.Cred = 1|(1<<6-1)<<1, 3
+				}
+				if t == 3 {
+					sh.Qos = 1
+				}
+				add("rewrite/"+tn(t), "ZZ_C10_rewrite", []string{"rewrite"}, append([]int{k}, sh.Args()...)...)
+			}
+		}
 		add("odd", "ZZ_C10_odd", []string{"undefined"}, 0)
 		for _, k := range []int{1, 2, 3, 5} {
 			for mode := 0; mode <= 2; mode++ {
@@ -336,6 +366,10 @@ func jobsFor(prop, tier string) []*Job {
 				}
 				j := add("det/"+tn(t), "ZZ_C11_det", []string{"det"}, append([]int{b2i(thorough)}, sh.Args()...)...)
 				j.NoValidate = true
+				if sh.Nz == 1 || sh.Mask == 0 {
+					j2 := add("proc/"+tn(t), "ZZ_C11_proc", []string{"proc"}, sh.Args()...)
+					j2.NoValidate = true
+				}
 			}
 		}
 	case "C12":
@@ -423,6 +457,23 @@ func jobsFor(prop, tier string) []*Job {
 				}
 			}
 		}
+		for sc := 0; sc <= 2; sc++ {
+			for _, l := range []int{1, 2, 4} {
+				if sc == 0 && l == 2 {
+					l = 3
+				}
+				add("reuse", "ZZ_C14_reuse", []string{"reuse"}, sc, l)
+			}
+		}
+		add("reuse", "ZZ_C14_reuse", []string{"reuse"}, 0, 0)
+		for t := 0; t <= 15; t++ {
+			for n := 0; n <= nmax(t, 5, 7); n++ {
+				if (t == 12 || t == 13) && n > 1 {
+					continue
+				}
+				add("after/"+tn(t), "ZZ_C14_after", []string{"after"}, t, n)
+			}
+		}
 	case "C15":
 		add("vb/enc", "ZZ_C15_enc", []string{"enc"})
 		add("vb/rt", "ZZ_C15_rt", []string{"rt"})
@@ -470,7 +521,7 @@ func jobsFor(prop, tier string) []*Job {
 					if !thorough && ul != pl && ul+pl != 11 {
 						continue
 					}
-					shapes := []Sh{{Typ: 1, Slen: 1}, {Typ: 1, Slen: 1, Mask: apiMask(1), NUser: 1, Will: 1 | (1<<6-1)<<1, Nz: 1}}
+					shapes := []Sh{{Typ: 1, Slen: 1}, {Typ: 1, Slen: 0}, {Typ: 1, Slen: 1, Mask: apiMask(1), NUser: 1, Will: 1 | (1<<6-1)<<1, Nz: 1}}
 					if thorough {
 						shapes = append(shapes, Sh{Typ: 1, Slen: 2, Mask: 6, NUser: 2, Will: 1, Nz: 1}, Sh{Typ: 1, Slen: 9, Mask: 2, Nz: 1})
 					}
